@@ -146,10 +146,34 @@ class _ModFlow:
                 return k.value
         return None
 
-    def leaves(self, f, x, depth=0, seen=()):
-        """[(function, expression)] the value of x in f may originate from"""
-        if depth > 5:
+    def leaves(self, f, x, depth=0, seen=(), env=None):
+        """[(function, expression)] the value of x in f may originate from.
+        env: {(function qname, parameter): (caller, argument)} for helpers
+        entered through one particular call (what they return is followed
+        with the arguments of that call)"""
+        env = env or {}
+        if depth > 7:
             return [(f, x)]
+        if isinstance(x, ast.Call) and isinstance(x.func, ast.Name):
+            # a module-level helper: what it returns, for this call
+            g = next((h for h in self.funcs if h.cls is None and
+                      h.parent is None and h.name == x.func.id), None)
+            if g is not None and not g.is_generator and \
+                    (g.qname, '$active') not in seen:
+                rets = [r.value for r in walk_own(g.node)
+                        if isinstance(r, ast.Return) and r.value is not None]
+                if rets:
+                    env2 = dict(env)
+                    for pn in g.params:
+                        a = self.arg_for(g, x, pn)
+                        if a is not None:
+                            env2[(g.qname, pn)] = (f, a, env)
+                    out = []
+                    for v in rets:
+                        out += self.leaves(g, v, depth + 1,
+                                           seen + ((g.qname, '$active'),),
+                                           env2)
+                    return out
         if isinstance(x, ast.Attribute) and isinstance(x.value, ast.Name) \
                 and f.cls is not None and f.kind == 'method' and f.params \
                 and x.value.id == f.params[0]:
@@ -171,6 +195,9 @@ class _ModFlow:
         if isinstance(x, ast.Name):
             stores = [n for n in walk_own(f.node) if isinstance(n, ast.Name)
                       and n.id == x.id and isinstance(n.ctx, ast.Store)]
+            if x.id in f.params and not stores and (f.qname, x.id) in env:
+                g0, a0, env0 = env[(f.qname, x.id)]
+                return self.leaves(g0, a0, depth + 1, seen, env0)
             if x.id in f.params and not stores:
                 out = []
                 for g, call in self.callers(f):
@@ -192,8 +219,20 @@ class _ModFlow:
                     vals.append(a[0].value)
                 out = []
                 for v in vals:
-                    out += self.leaves(f, v, depth + 1, seen)
+                    out += self.leaves(f, v, depth + 1, seen, env)
                 return out
+        if isinstance(x, ast.Call) and isinstance(x.func, ast.Name) and \
+                x.func.id == 'bytearray' and len(x.args) == 1 and \
+                isinstance(x.args[0], ast.Name) and \
+                (f.qname, x.args[0].id) in env:
+            # bytearray(<size parameter of a helper>): the size this call of
+            # the helper was given
+            g0, a0, env0 = env[(f.qname, x.args[0].id)]
+            ls = self.leaves(g0, a0, depth + 1, seen, env0)
+            if len(ls) == 1:
+                new = ast.Call(func=x.func, args=[ls[0][1]], keywords=[])
+                ast.copy_location(new, x)
+                return [(ls[0][0], new)]
         return [(f, x)]
 
     def enclosing_loops(self, f, node, depth=0):
